@@ -346,12 +346,12 @@ def prove_emit(eng, p, res, n, eos, where):
     cut, deliver, ctok, etok = emit_spec(p, n, eos)
     if res is None:
         eng.prove("C04:nothing-delivered-only-when-spec-says-so:" + where,
-                  Implies(c, And(Not(cut), Not(deliver))), props=("C04",))
+                  Implies(c, And(Not(cut), Not(deliver))), props=("C04", "C08"))
     else:
         d, a, b = token_parts(eng, res)
         eng.prove("C04:delivered-token-is-the-spec-token:" + where,
                   Implies(c, Or(And(cut, a == ctok[0], b == ctok[1]),
-                                And(Not(cut), deliver, a == etok[0], b == etok[1]))), props=("C04",))
+                                And(Not(cut), deliver, a == etok[0], b == etok[1]))), props=("C04", "C08"))
 
 
 def flush_spec(p, f, n):
